@@ -40,10 +40,24 @@ pub struct ScriptedWalStore {
 }
 
 fn file_seq(name: &str) -> u64 {
-    name.strip_prefix("wal-")
+    let v = name.strip_prefix("wal-")
         .and_then(|s| s.strip_suffix(".wal"))
         .and_then(|s| u64::from_str_radix(s, 16).ok())
-        .unwrap_or(0)
+        .unwrap_or(0);
+    // sequences near and beyond 2^32 (a directory that has seen that many rotations) are shifted into TLC's
+    // integer range, order kept
+    if v >= 0xffff_0000 { v - 0xffff_0000 + 100_000 } else { v }
+}
+
+/// A synced, header-only WAL file with the given sequence, as the real WalWriter writes it.
+fn header_only_file(seq: u64) -> (String, Vec<u8>) {
+    let st = InMemoryWalStore::new();
+    let name = format!("wal-{:08x}.wal", seq);
+    let w = st.create(&name).unwrap();
+    let mut ww = redis_sim::streaming::WalWriter::new(w, seq).unwrap();
+    ww.sync().unwrap();
+    let data = st.open_read(&name).unwrap().read_all().unwrap();
+    (name, data)
 }
 
 /// Writer id of an encoded entry: the registry of pre-encoded entries, or (node-level runs, where the
@@ -373,6 +387,13 @@ fn run_restart_scenario(run: usize, stray: &str, n1: u64, n2: u64, cap: usize, o
         truncation_check_interval: Duration::from_secs(3600),
     };
     out.emit(&json!({"a": "reset", "run": run, "cap": cap, "batch": 2, "scn": {"restart": true, "stray": stray, "n1": n1, "n2": n2}}));
+    // "HIGHSEQ:<hex>": the directory already holds a (synced, empty) segment with that sequence number
+    if let Some(h) = stray.strip_prefix("HIGHSEQ:") {
+        let (name, data) = header_only_file(u64::from_str_radix(h, 16).unwrap());
+        let n = data.len();
+        store.inner.lock().unwrap().files.insert(name, FileImg { data, synced: n });
+    }
+    let stray = if stray.starts_with("HIGHSEQ:") { "" } else { stray };
     let rt = tokio::runtime::Builder::new_current_thread().enable_all().start_paused(true).build().unwrap();
     let res = catch(|| {
         for (life, range) in [(1, 1..=n1), (2, (n1 + 1)..=(n1 + n2))] {
@@ -595,7 +616,7 @@ pub fn main(args: &[String]) -> i32 {
                 run_actor_scenario(run, &json!({"cap": 2, "batch": 2, "bursts": [[1, 2], [3, 4]], "faults": [], "huge": [hw, len]}), &mut out);
             }
             // two lives on one store, with and without a stray file that sorts last / in between
-            for stray in ["", "wal.lock", "wal-00000001.wal.bak", "zzz", "wal-zzzzzzzz.wal", ".hidden"] {
+            for stray in ["", "wal.lock", "wal-00000001.wal.bak", "zzz", "wal-zzzzzzzz.wal", ".hidden", "HIGHSEQ:fffffffe", "HIGHSEQ:ffffffff", "HIGHSEQ:1ffffffff"] {
                 for (n1, n2, cap) in [(3u64, 1u64, 2usize), (2, 2, 1), (4, 3, 3)] {
                     run += 1;
                     run_restart_scenario(run, stray, n1, n2, cap, &mut out);
